@@ -165,12 +165,19 @@ Section World.
   Definition hmsgs (l : list msg) : list msg := filter is_hmsg l.
 
   (* ---------------- the discipline ---------------- *)
-  Definition grants (fn : bytes) (i : input) : Prop := fn = FSetRole /\ argn i 0 = tok /\ In CR (tl (i_args i)).
-  Definition revokes (fn : bytes) (i : input) : Prop := fn = FUnSetRole /\ argn i 0 = tok /\ In CR (tl (i_args i)).
-  Definition hands (fn : bytes) (i : input) : Prop := fn = CRT /\ argn i 0 = tok.
+  (* Calls that cannot succeed are not constrained: ESDTSetRole / ESDTUnSetRole are refused unless the caller is the
+     system contract, ESDTNFTCreateRoleTransfer is refused when the caller's account is on the executing shard
+     (i_snd = true: every ordinary transaction naming the function). *)
+  Definition grants (fn : bytes) (i : input) : Prop :=
+    fn = FSetRole /\ i_caller i = SC /\ argn i 0 = tok /\ In CR (tl (i_args i)).
+  Definition revokes (fn : bytes) (i : input) : Prop :=
+    fn = FUnSetRole /\ i_caller i = SC /\ argn i 0 = tok /\ In CR (tl (i_args i)).
+  Definition hands0 (fn : bytes) (i : input) : Prop := fn = CRT /\ argn i 0 = tok.
+  Definition hands (fn : bytes) (i : input) : Prop := hands0 fn i /\ i_snd i = false.
   Definition grant_attempt (w : world) (op : wop) : bool :=
     match op_exec w op with
-    | Some (_, fn, i) => (beqb fn FSetRole && beqb (argn i 0) tok && bytes_in CR (tl (i_args i)))%bool
+    | Some (_, fn, i) =>
+      (beqb fn FSetRole && beqb (i_caller i) SC && beqb (argn i 0) tok && bytes_in CR (tl (i_args i)))%bool
     | None => false
     end.
 
@@ -304,9 +311,9 @@ Section World.
     - destruct (shof (m_dest m) <? wc_nshards c)%N; [|discriminate]. intros [= <- <- <-]. eauto.
     - destruct (nat_in id (failed w) && (shof (m_sender m) <? wc_nshards c)%N)%bool; [|discriminate]. intros [= <- <- <-]. eauto.
   Qed.
-  Lemma is_hmsg_hands m fn i : fn = m_fn m -> i_args i = m_args m -> (is_hmsg m = true <-> hands fn i).
+  Lemma is_hmsg_hands m fn i : fn = m_fn m -> i_args i = m_args m -> (is_hmsg m = true <-> hands0 fn i).
   Proof.
-    intros -> Ha. unfold is_hmsg, hands, argn. rewrite Ha. rewrite Bool.andb_true_iff. split.
+    intros -> Ha. unfold is_hmsg, hands0, argn. rewrite Ha. rewrite Bool.andb_true_iff. split.
     - intros [H1 H2]. split; apply beqb_true; assumption.
     - intros [H1 H2]. rewrite H1, H2, !beqb_refl. auto.
   Qed.
@@ -326,8 +333,8 @@ Section World.
   (* ================================================================ *)
   Section Step.
     Variables (g : bool) (w : world) (op : wop) (L : list N) (sh : N) (fn : bytes) (i : input) (o : output) (s' : mstate).
-    Hypothesis HI : CInv g w L.
-    Hypothesis Hok : step_ok g w op.
+    Hypothesis Hwf : wf_world w.
+    Hypothesis Hdst : dst_ok op.
     Hypothesis Hop : op_exec w op = Some (sh, fn, i).
     Hypothesis Hex : exec (env_at c sh) fn i (wst w sh) = (Ok o, s').
     Let w' := wstep c w op.
@@ -342,7 +349,7 @@ Section World.
     Lemma step_len : length (shards w') = length (shards w).
     Proof. destruct step_facts as (_ & H & _). rewrite H. apply set_nth_length. Qed.
     Lemma step_inrange : (N.to_nat sh < length (shards w))%nat.
-    Proof. destruct step_facts as (H & _). apply N.ltb_lt in H. pose proof (ci_wf _ _ _ HI) as Hwf. unfold wf_world in Hwf. lia. Qed.
+    Proof. destruct step_facts as (H & _). apply N.ltb_lt in H. unfold wf_world in Hwf. lia. Qed.
 
     Lemma step_wroles t sh1 a : wroles w' t sh1 a = if (sh1 =? sh)%N then roles_at E s' a t else wroles w t sh1 a.
     Proof.
@@ -369,10 +376,10 @@ Section World.
     Qed.
 
     Lemma step_dst : is_transfer_fn fn = true -> i_dst i = (shof (i_rcpt i) =? sh)%N.
-    Proof. destruct Hok as (Hd & _). eapply op_exec_dst_truthful; eauto. Qed.
+    Proof. eapply op_exec_dst_truthful; eauto. Qed.
 
     (* messages: a step that is not a hand-over for tok neither adds nor removes a hand-over message for tok *)
-    Lemma step_emitted_other : ~ hands fn i -> hmsgs (emitted op sh fn i (next_id w) o) = [].
+    Lemma step_emitted_other : ~ hands0 fn i -> hmsgs (emitted op sh fn i (next_id w) o) = [].
     Proof.
       intros Hnh. apply filter_none. intros m Hin.
       assert (Hin' : In m (collect c sh fn i (next_id w) o)) by (destruct op; cbn [emitted] in Hin; try exact Hin; destruct Hin).
@@ -400,7 +407,7 @@ Section World.
           rewrite collect_no_accounts in Hin' by reflexivity. destruct Hin'.
       - rewrite (beqb_false _ _ (collect_not_handover c sh fn i (next_id w) o _ _ Hex step_dst Hf m Hin')). reflexivity.
     Qed.
-    Lemma step_kept_other : ~ hands fn i -> hmsgs (kept w op) = hmsgs (inflight w).
+    Lemma step_kept_other : ~ hands0 fn i -> hmsgs (kept w op) = hmsgs (inflight w).
     Proof.
       intros Hnh. pose proof (op_exec_msg _ _ _ _ _ Hop) as Hm. destruct op as [sh0 fn0 i0|id gas|id gas|id gas]; cbn [kept]; try reflexivity.
       - destruct Hm as (m & Hf & Hfn & Ha). apply (hmsgs_drop_other _ _ _ Hf).
@@ -408,13 +415,17 @@ Section World.
       - destruct Hm as (m & Hf & Hfn & Ha). apply (hmsgs_drop_other _ _ _ Hf).
         destruct (is_hmsg m) eqn:Eh; [|reflexivity]. exfalso. apply Hnh. apply (is_hmsg_hands m fn i Hfn Ha). exact Eh.
     Qed.
-    Lemma step_hmsgs_other : ~ hands fn i -> hmsgs (inflight w') = hmsgs (inflight w).
+    Lemma step_hmsgs_other : ~ hands0 fn i -> hmsgs (inflight w') = hmsgs (inflight w).
     Proof.
       intros Hnh. destruct step_facts as (_ & _ & H). rewrite H, hmsgs_app, step_emitted_other, step_kept_other by assumption.
       apply app_nil_r.
     Qed.
 
     Ltac cne := apply beqb_false_iff; reflexivity.
+
+    (* from here on: the invariant and the discipline *)
+    Hypothesis HI : CInv g w L.
+    Hypothesis Hok : step_ok g w op.
 
     (* ---------- (e) the call writes no role / counter cell of tok ---------- *)
     Definition touches_tok : Prop :=
@@ -464,11 +475,11 @@ Section World.
 
     (* ---------- (b), (c) SetESDTRole / UnSetESDTRole for tok ---------- *)
     Lemma step_roles (set : bool) : fn = (if set then FSetRole else FUnSetRole) -> argn i 0 = tok ->
-      CInv (g || (if set then bytes_in CR (tl (i_args i)) else false)) w' L.
+      CInv (g || (if set then beqb (i_caller i) SC && bytes_in CR (tl (i_args i)) else false)) w' L.
     Proof.
       intros Hf Ht.
       assert (Hex' : exec E (if set then FSetRole else FUnSetRole) i s = (Ok o, s')) by (rewrite <- Hf; exact Hex).
-      destruct (set_role_effect E Hc set _ _ _ _ Hex') as (_ & _ & _ & Hr). rewrite Ht in Hr.
+      destruct (set_role_effect E Hc set _ _ _ _ Hex') as (Hsc & _ & _ & Hr). rewrite Ht in Hr.
       assert (Hfn : fn <> FCreate /\ fn <> CRT).
       { rewrite Hf. destruct set; split; cne. }
       destruct Hfn as (Hf1 & Hf2).
@@ -482,11 +493,12 @@ Section World.
                          cnt CR (if set then wroles w tok sh (i_rcpt i) ++ tl (i_args i)
                                  else delete_roles (wroles w tok sh (i_rcpt i)) (tl (i_args i)))).
       { unfold ncreate. rewrite step_wroles, N.eqb_refl, Hr. reflexivity. }
+      rewrite Hsc, beqb_refl. cbn [andb].
       destruct (bytes_in CR (tl (i_args i))) eqn:Ein.
       - (* the role list argument carries the create role *)
         apply bytes_in_true in Ein. destruct Hok as (_ & Hs). rewrite Hop in Hs. destruct Hs as (Hgr & Hrv & _).
         destruct set; [|exfalso; apply Hrv; split; [exact Hf|auto]].
-        destruct (Hgr (conj Hf (conj Ht Ein))) as (Hg & Hone). rewrite Hg. cbn [orb].
+        destruct (Hgr (conj Hf (conj Hsc (conj Ht Ein)))) as (Hg & Hone). rewrite Hg. cbn [orb].
         destruct HI. destruct (ci_fresh0 Hg) as (HL & Hnom & Hnoh).
         assert (H0 : forall sh1 a, ncreate w tok sh1 a = 0%nat).
         { intros sh1 a. specialize (Hnoh sh1 a). unfold holder in Hnoh. lia. }
@@ -695,30 +707,33 @@ Section World.
     assert (Hmono : forall b, (g || b)%bool = false -> g = false) by (intros b Hg; apply Bool.orb_false_iff in Hg; tauto).
     destruct (beqb_spec (argn i 0) tok) as [Ht|Ht].
     - destruct (beqb_spec fn FCreate) as [Hf|Hf1].
-      { cbn [andb]. destruct (step_create g w op L sh fn i o s' HI Hok Hop Hex Hf Ht Hnw) as (Hret & _ & H).
+      { cbn [andb]. destruct (step_create g w op L sh fn i o s' (ci_wf _ _ _ HI) (proj1 Hok) Hop Hex HI Hf Ht Hnw) as (Hret & _ & H).
         rewrite Hret. eapply CInv_g; [apply Hmono|exact H]. }
       cbn [andb]. rewrite app_nil_r.
       destruct (beqb_spec fn FSetRole) as [Hf|Hf2].
-      { cbn [andb]. exact (step_roles g w op L sh fn i o s' HI Hok Hop Hex true Hf Ht). }
+      { cbn [andb]. rewrite Bool.andb_true_r.
+        exact (step_roles g w op L sh fn i o s' (ci_wf _ _ _ HI) (proj1 Hok) Hop Hex HI Hok true Hf Ht). }
       cbn [andb].
       destruct (beqb_spec fn FUnSetRole) as [Hf|Hf3].
-      { eapply CInv_g; [apply Hmono|]. pose proof (step_roles g w op L sh fn i o s' HI Hok Hop Hex false Hf Ht) as H.
+      { eapply CInv_g; [apply Hmono|]. pose proof (step_roles g w op L sh fn i o s' (ci_wf _ _ _ HI) (proj1 Hok) Hop Hex HI Hok false Hf Ht) as H.
         rewrite Bool.orb_false_r in H. exact H. }
       destruct (beqb_spec fn CRT) as [Hf|Hf4].
       { eapply CInv_g; [apply Hmono|]. pose proof Hok as (_ & Hs). rewrite Hop in Hs. destruct Hs as (_ & _ & Hh).
-        specialize (Hh (conj Hf Ht)). pose proof (op_exec_msg _ _ _ _ _ Hop) as Hm.
+        assert (Hsnd : i_snd i = false).
+        { pose proof Hex as Hex2. rewrite Hf in Hex2. apply role_transfer_requires_exec in Hex2. tauto. }
+        specialize (Hh (conj (conj Hf Ht) Hsnd)). pose proof (op_exec_msg _ _ _ _ _ Hop) as Hm.
         destruct op as [sh0 fn0 i0|id gas|id gas|id gas].
         - destruct Hh as (Hsc & Hhold).
-          apply (step_hand_sc g w _ L sh fn i o s' HI Hok Hop Hex Hf Ht Hsc Hhold); reflexivity.
+          apply (step_hand_sc g w _ L sh fn i o s' (ci_wf _ _ _ HI) Hop Hex HI Hok Hf Ht Hsc Hhold); reflexivity.
         - destruct Hm as (m & Hfind & Hfn & Ha).
-          apply (step_hand_msg g w _ L sh fn i o s' HI Hok Hop Hex id m Hf Ht Hfind Hfn Ha); [reflexivity|left; reflexivity].
+          apply (step_hand_msg g w _ L sh fn i o s' (ci_wf _ _ _ HI) Hop Hex HI Hok id m Hf Ht Hfind Hfn Ha); [reflexivity|left; reflexivity].
         - destruct Hh.
         - destruct Hm as (m & Hfind & Hfn & Ha).
-          apply (step_hand_msg g w _ L sh fn i o s' HI Hok Hop Hex id m Hf Ht Hfind Hfn Ha); [reflexivity|right; reflexivity]. }
-      eapply CInv_g; [apply Hmono|]. apply (step_other g w op L sh fn i o s' HI Hok Hop Hex).
+          apply (step_hand_msg g w _ L sh fn i o s' (ci_wf _ _ _ HI) Hop Hex HI Hok id m Hf Ht Hfind Hfn Ha); [reflexivity|right; reflexivity]. }
+      eapply CInv_g; [apply Hmono|]. apply (step_other g w op L sh fn i o s' (ci_wf _ _ _ HI) (proj1 Hok) Hop Hex HI).
       intros (_ & [?|[?|[?|?]]]); contradiction.
     - rewrite !Bool.andb_false_r. cbn [andb]. rewrite app_nil_r. eapply CInv_g; [apply Hmono|].
-      apply (step_other g w op L sh fn i o s' HI Hok Hop Hex). intros (? & _). contradiction.
+      apply (step_other g w op L sh fn i o s' (ci_wf _ _ _ HI) (proj1 Hok) Hop Hex HI). intros (? & _). contradiction.
   Qed.
 
   (* ================================================================ *)
